@@ -269,7 +269,15 @@ impl Model for FilterModel {
 // ---------------------------------------------------------------------------
 // paging
 
-fn entry(i: usize) -> Entry { (Ipv4Addr::new(10, (i >> 16) as u8, (i >> 8) as u8, i as u8), 27000 + (i % 1000) as u16) }
+/// Distinct listed addresses whose text form has every length: the shortest (one-digit octets and port), a middling one,
+/// and the longest possible (three-digit octets, five-digit port: 21 characters - the seed of a follow-up request is text).
+fn entry(i: usize) -> Entry {
+    match i % 3 {
+        0 => (Ipv4Addr::new(10, (i >> 16) as u8, (i >> 8) as u8, i as u8), 27000 + (i % 1000) as u16),
+        1 => (Ipv4Addr::new(203, 100 + ((i / 150) % 100) as u8, 255, 100 + (i % 150) as u8), 27000 + (i % 1000) as u16),
+        _ => (Ipv4Addr::new(1, 2, (i >> 8) as u8, i as u8), 1 + (i % 9) as u16),
+    }
+}
 
 #[derive(Clone, Debug)]
 enum What {
@@ -311,7 +319,7 @@ impl Prop for C16 {
          methods, the real query_specific is run under the virtual network and the emitted request must be `31 region \
          \"0.0.0.0:0\" 00 filter 00` with a filter string that parses under the wiki grammar (\\key\\value pairs, \\nand\\N / \
          \\nor\\N followed by exactly N pairs) and denotes exactly the reference groups; all 9 regions at depth <= 1. query_singular: one request seeded 0.0.0.0:0, the first page without a trailing terminator. paging: \
-         all page sequences of 1..4 (quick) / 1..6 (thorough) pages with lengths from {0,1,2,230} and the terminator at \
+         listed addresses come in the shortest, a middling and the longest (21 characters) text form; all page sequences of 1..4 (quick) / 1..6 (thorough) pages with lengths from {0,1,2,230} and the terminator at \
          boundary positions of every page or absent, optionally followed in its datagram by a further 0.0.0.0:0 entry (padding): returned list = entries before the first terminator, in order; request \
          i+1 seeded with the last address of page i; one request per consumed page; nothing after the terminator"
             .into()
